@@ -33,7 +33,8 @@ unsigned g_cas_ok, g_constructs, g_pub_stores, g_clone_stores, g_size_adds, g_fe
 size_t g_claimed;                           /* index this thread claimed */
 size_t g_snap_base; signed char g_snap_f; _Bool g_snap_in; unsigned long g_empty_mask; _Bool g_have_empty_mask;
 size_t g_ret_index; _Bool g_ret_second, g_ret_set;
-size_t g_fp, g_probes; _Bool g_published_path;   /* find: F's group is the g_fp-th group probed and every earlier one is full */
+size_t g_fp, g_probes; _Bool g_published_path;   /* find: F's group is group g_fp of the key's probe sequence and every earlier one is full */
+size_t g_k, g_xbase; _Bool g_started;            /* probe sequence: index and start of the group probed last */
 #define CHK ((signed char)(g_hash & 127))
 static void env_step(void) {
   if (!g_env_on) return;
@@ -51,7 +52,7 @@ static void vf_havoc_ghosts(void) {
   g_F = nondet_u64(); __CPROVER_assume(g_F <= g_mask);
   g_key = nondet_u64(); g_hash = nondet_u64(); g_env_on = nondet_bool(); g_mine = 0;
   g_cas_ok = g_constructs = g_pub_stores = g_clone_stores = g_size_adds = g_fences = 0; g_have_empty_mask = 0; g_ret_set = 0;
-  g_fp = nondet_u64(); g_probes = 0; g_published_path = nondet_bool();
+  g_fp = nondet_u64(); g_probes = 0; g_published_path = nondet_bool(); g_k = 0; g_xbase = 0; g_started = 0;
 }
 size_t Hash_op_call(struct Hash *h, unsigned long k) { return k == g_key ? g_hash : nondet_u64(); }
 int vf_sched_yield(void) { return 0; }
@@ -60,8 +61,19 @@ void Group_ctor__ai8P(struct Group *g, int8_t *controls) {
   env_step();
   __CPROVER_assert(__CPROVER_same_object(controls, g_ctl) && (size_t)(controls - g_ctl) <= g_mask, "K5 C03 a group snapshot starts inside the control array");
   g_snap_base = (size_t)(controls - g_ctl); g_snap_f = g_ctl[g_F]; g_snap_in = ((g_F - g_snap_base) & g_mask) < 16; g_have_empty_mask = 0;
-  if (g_published_path && g_probes < g_fp) __CPROVER_assume(!g_snap_in);     /* groups before F's group on the probe path */
-  if (g_published_path && g_probes == g_fp) __CPROVER_assume(g_snap_in);
+  /* the probe sequence of a key is fixed: group 0 starts at bucket (hash >> 7) & mask, group k+1 starts 16 * (k+1) buckets after
+     group k (triangular probing); probing the same group again (a retry after a lost race) is not a step.  Insert and lookup are
+     both held to this one sequence, which is what makes a lookup reach the slot an earlier insert chose. */
+  if (!g_started) {
+    __CPROVER_assert(g_snap_base == ((g_hash >> 7) & g_mask), "K5 C03 AGREE[probe] the first group probed starts at bucket (hash >> 7) & mask");
+    g_started = 1; g_k = 0; g_xbase = g_snap_base;
+  } else if (g_snap_base != g_xbase) {
+    __CPROVER_assert(g_snap_base == ((g_xbase + 16 * (g_k + 1)) & g_mask), "K5 C03 AGREE[probe] group k+1 of the probe sequence starts 16 * (k+1) buckets after group k");
+    if (g_k < 1000000) g_k++;
+    g_xbase = g_snap_base;
+  }
+  if (g_published_path && g_k < g_fp) __CPROVER_assume(!g_snap_in);     /* groups before F's group on the probe path */
+  if (g_published_path && g_k == g_fp) __CPROVER_assume(g_snap_in);
   if (g_probes < 1000000) g_probes++;
 }
 struct GroupIterator Group_match(struct Group *g, signed char check) {
@@ -72,7 +84,7 @@ struct GroupIterator Group_match(struct Group *g, signed char check) {
 struct GroupIterator Group_match_empty(struct Group *g) {
   struct GroupIterator it; it._mask = nondet_u64() & 0xFFFF;
   if (g_snap_in) { unsigned long bit = 1UL << ((g_F - g_snap_base) & g_mask); if (g_snap_f < 0) it._mask |= bit; else it._mask &= ~bit; }
-  if (g_published_path && g_probes <= g_fp) it._mask = 0;      /* RELY: every group up to F's own on the probe path is full (F's group: checked by the caller's contract) */
+  if (g_published_path && g_k < g_fp) it._mask = 0;      /* RELY: every group up to F's own on the probe path is full (F's group: checked by the caller's contract) */
   g_empty_mask = it._mask; g_have_empty_mask = 1;
   return it;
 }
@@ -122,9 +134,9 @@ void std_pair_L_iterator_bool_R_ctor_2(struct std_pair_L_iterator_bool_R *p, str
    && (g_ctl[g_F] == EMPTY || g_ctl[g_F] == BUSY || g_ctl[g_F] >= 0) && (g_F >= 15 || g_ctl[CLONE(g_F)] == g_ctl[g_F]))
 
 struct std_pair_L_iterator_bool_R Tab_do_emplace__unsigned_longRef_x(Tab_t *t, unsigned long *k)
-__CPROVER_requires(T_SHAPE(t) && __CPROVER_is_fresh(k, sizeof(*k)) && *k == g_key && !g_published_path)
+__CPROVER_requires(T_SHAPE(t) && __CPROVER_is_fresh(k, sizeof(*k)) && *k == g_key && !g_published_path && !g_started)
 __CPROVER_assigns(__CPROVER_object_whole(g_ctl), __CPROVER_object_whole(g_vals), g_mine, g_cas_ok, g_constructs, g_pub_stores, g_clone_stores, g_size_adds, g_fences, g_claimed,
-                  g_snap_base, g_snap_f, g_snap_in, g_empty_mask, g_have_empty_mask, g_ret_index, g_ret_second, g_ret_set, g_probes)
+                  g_snap_base, g_snap_f, g_snap_in, g_empty_mask, g_have_empty_mask, g_ret_index, g_ret_second, g_ret_set, g_probes, g_k, g_xbase, g_started)
 __CPROVER_ensures(g_ret_set)
 /* inserted: exactly one construction, published to control and clone, size + 1, iterator at the claimed slot */
 __CPROVER_ensures(g_ret_second ==> (g_cas_ok == 1 && g_constructs == 1 && g_pub_stores == 1 && g_clone_stores == 1 && g_size_adds == 1 && g_ret_index == g_claimed && g_claimed <= g_mask))
@@ -136,8 +148,10 @@ __CPROVER_ensures((!g_ret_second && g_ret_index <= g_mask) ==> (g_fences >= 1 &&
 __CPROVER_ensures(g_ret_index <= g_mask + 1)
 ;
 //@loop Tab_do_emplace__unsigned_longRef_x 1
-//@  __CPROVER_assigns(@l5:step@, @l4:base_index@, __CPROVER_object_whole(g_ctl), __CPROVER_object_whole(g_vals), g_mine, g_fences, g_snap_base, g_snap_f, g_snap_in, g_empty_mask, g_have_empty_mask, g_probes, g_cas_ok, g_constructs, g_pub_stores, g_clone_stores, g_size_adds, g_claimed, g_ret_index, g_ret_second, g_ret_set)
+//@  __CPROVER_assigns(@l5:step@, @l4:base_index@, __CPROVER_object_whole(g_ctl), __CPROVER_object_whole(g_vals), g_mine, g_fences, g_snap_base, g_snap_f, g_snap_in, g_empty_mask, g_have_empty_mask, g_probes, g_k, g_xbase, g_started, g_cas_ok, g_constructs, g_pub_stores, g_clone_stores, g_size_adds, g_claimed, g_ret_index, g_ret_second, g_ret_set)
 //@  __CPROVER_loop_invariant(g_cas_ok == 0 && g_constructs == 0 && g_pub_stores == 0 && g_clone_stores == 0 && g_size_adds == 0 && !g_mine && !g_ret_set && @l4:base_index@ <= g_mask)
+//@  __CPROVER_loop_invariant(!g_started ==> (@l5:step@ == 0 && @l4:base_index@ == ((g_hash >> 7) & g_mask)))
+//@  __CPROVER_loop_invariant(g_started ==> (g_k <= g_mask / 16 && g_xbase <= g_mask && ((@l5:step@ == 16 * g_k && @l4:base_index@ == g_xbase) || (@l5:step@ == 16 * (g_k + 1) && @l4:base_index@ == ((g_xbase + @l5:step@) & g_mask)))))
 //@  __CPROVER_loop_invariant((g_ctl[g_F] == EMPTY || g_ctl[g_F] == BUSY || g_ctl[g_F] >= 0) && (g_F >= 15 || g_ctl[CLONE(g_F)] == g_ctl[g_F]))
 //@end
 //@loop Tab_do_emplace__unsigned_longRef_x 2
@@ -148,22 +162,24 @@ __CPROVER_ensures(g_ret_index <= g_mask + 1)
 
 /* find: a returned slot holds an equal key; a key published in F whose probe path up to F's group is full is found */
 struct Tab_Iterator_L_0_R Tab_find__unsigned_long__u64R(Tab_t *t, unsigned long *k)
-__CPROVER_requires(T_SHAPE(t) && __CPROVER_is_fresh(k, sizeof(*k)) && *k == g_key && g_fp < (1UL << 16))
+__CPROVER_requires(T_SHAPE(t) && __CPROVER_is_fresh(k, sizeof(*k)) && *k == g_key && g_fp <= g_mask / 16 && !g_started)
 __CPROVER_requires(g_published_path ==> (g_ctl[g_F] == CHK && g_vals[g_F]._object == g_key))
-__CPROVER_assigns(__CPROVER_object_whole(g_ctl), __CPROVER_object_whole(g_vals), g_fences, g_snap_base, g_snap_f, g_snap_in, g_empty_mask, g_have_empty_mask, g_probes)
+__CPROVER_assigns(__CPROVER_object_whole(g_ctl), __CPROVER_object_whole(g_vals), g_fences, g_snap_base, g_snap_f, g_snap_in, g_empty_mask, g_have_empty_mask, g_probes, g_k, g_xbase, g_started)
 __CPROVER_ensures(__CPROVER_return_value._index <= g_mask + 1)
 __CPROVER_ensures((__CPROVER_return_value._index <= g_mask && __CPROVER_return_value._index == g_F) ==> (g_vals[g_F]._object == g_key && g_fences >= 1))
-__CPROVER_ensures((g_published_path && g_fp * 16 <= g_mask) ==> (__CPROVER_return_value._index <= g_mask))     /* never misses a published key */
+__CPROVER_ensures(g_published_path ==> (__CPROVER_return_value._index <= g_mask))     /* never misses a published key */
 ;
 //@loop Tab_find__unsigned_long__u64R 1
-//@  __CPROVER_assigns(@l4:step@, @l3:base_index@, __CPROVER_object_whole(g_ctl), __CPROVER_object_whole(g_vals), g_fences, g_snap_base, g_snap_f, g_snap_in, g_empty_mask, g_have_empty_mask, g_probes)
-//@  __CPROVER_loop_invariant(@l3:base_index@ <= g_mask && @l4:step@ == 16 * g_probes && g_probes <= 70000)
-//@  __CPROVER_loop_invariant(g_published_path ==> (g_probes <= g_fp && g_ctl[g_F] == CHK && g_vals[g_F]._object == g_key))
+//@  __CPROVER_assigns(@l4:step@, @l3:base_index@, __CPROVER_object_whole(g_ctl), __CPROVER_object_whole(g_vals), g_fences, g_snap_base, g_snap_f, g_snap_in, g_empty_mask, g_have_empty_mask, g_probes, g_k, g_xbase, g_started)
+//@  __CPROVER_loop_invariant(@l3:base_index@ <= g_mask)
+//@  __CPROVER_loop_invariant(!g_started ==> (@l4:step@ == 0 && @l3:base_index@ == ((g_hash >> 7) & g_mask)))
+//@  __CPROVER_loop_invariant(g_started ==> (g_k <= g_mask / 16 && g_xbase <= g_mask && @l4:step@ == 16 * (g_k + 1) && @l3:base_index@ == ((g_xbase + @l4:step@) & g_mask)))
+//@  __CPROVER_loop_invariant(g_published_path ==> ((g_started ==> g_k < g_fp) && g_ctl[g_F] == CHK && g_vals[g_F]._object == g_key))
 //@end
 //@loop Tab_find__unsigned_long__u64R 2
 //@  __CPROVER_assigns(@l6:iter@, g_fences)
 //@  __CPROVER_loop_invariant(@l6:iter@._mask <= 0xFFFF && ((g_snap_in && ((@l6:iter@._mask >> ((g_F - g_snap_base) & g_mask)) & 1)) ==> g_snap_f == @l2:checker@))
-//@  __CPROVER_loop_invariant((g_published_path && g_probes == g_fp + 1) ==> (g_snap_in && ((@l6:iter@._mask >> ((g_F - g_snap_base) & g_mask)) & 1) && g_ctl[g_F] == CHK && g_vals[g_F]._object == g_key))
+//@  __CPROVER_loop_invariant((g_published_path && g_started && g_k == g_fp) ==> (g_snap_in && ((@l6:iter@._mask >> ((g_F - g_snap_base) & g_mask)) & 1) && g_ctl[g_F] == CHK && g_vals[g_F]._object == g_key))
 //@  __CPROVER_decreases(@l6:iter@._mask)
 //@end
 #endif
